@@ -91,7 +91,11 @@ def db_chars(db):
     """(iid, format) of accessory 1 in database order"""
     if not db or db == "noaid1":
         return []
-    return [(2, "string")] + DBS[db] + ([(SIG_IID, "data")] if db == "1" else [])
+    return [(2, "string")] + DBS["1" if db == "1nosig" else db] + ([(SIG_IID, "data")] if db == "1" else [])
+
+
+def chars_tok(db):
+    return ",".join("%d.%s" % (i, MODEL_FMT.get(f, "other")) for i, f in db_chars(db)) or "-"
 
 
 def pdb(p):
@@ -100,7 +104,8 @@ def pdb(p):
 
 # ------------------------------------------------------------------ events
 PAIRING_NAMES = ("A", "B", "C", "D", "E", "F")
-OPS = ("plain", "populate", "update", "restart", "setkey", "evt_begin", "evt_end", "poll_begin", "poll_end")
+OPS = ("plain", "populate", "update", "restart", "setkey", "evt_begin", "evt_end", "poll_begin", "poll_end",
+       "db", "reload", "cfg_begin", "cfg_end")
 MAX_GSN = 65535
 
 
@@ -188,6 +193,14 @@ def symbolic(world, ev, plain_sns, curkeys=None):
         return "LB:%s" % ev["to"]
     if ev["k"] == "poll_end":
         return "LE:%s:%s" % (ev["to"], "fail" if ev["sn"] is None else ev["sn"])
+    if ev["k"] == "db":
+        return "DB:%s:%s:%d:1" % (ev["to"], chars_tok(ev["db"]), 1 if ev["db"] == "1" else 0)
+    if ev["k"] == "reload":
+        return "RL:%s" % ev["to"]
+    if ev["k"] == "cfg_begin":
+        return "CB:%s:%d" % (ev["to"], ev["sn"])
+    if ev["k"] == "cfg_end":
+        return "CE:%s:%s:%d:%d" % (ev["to"], chars_tok(ev["db"]), 1 if ev["db"] == "1" else 0, ev["g"])
     if ev["k"] == "evt_begin":
         return "EB:%s:%d" % (ev["to"], ev["g"])
     if ev["k"] == "evt_end":
@@ -220,8 +233,10 @@ def model_line(world, events):
     for p in world:
         chars = ",".join("%d.%s" % (i, MODEL_FMT.get(f, "other")) for i, f in db_chars(p["db"])) or "-"
         has_desc = p["cache"] and p["sn"]
+        if p.get("pre") is not None:
+            toks.append("I:%s" % p["id"])        # a regular advertisement was seen before load_pairing
         toks.append("P:%s:%s:%s:%s:%s:%d" % (p["id"], KEYNUM[p["key"]] if p["key"] else "-",
-                                             p["sn"] if has_desc else "-",
+                                             p["pre"] if p.get("pre") is not None else (p["sn"] if has_desc else "-"),
                                              p["sn"] if (p["cache"] and p["sn"] is not None) else "-", chars,
                                              1 if p["db"] == "1" else 0))
     plain_sns = {}
@@ -230,11 +245,19 @@ def model_line(world, events):
             plain_sns.setdefault(e["to"], []).append(e["sn"])
         if e["k"] == "evt_begin":
             plain_sns.setdefault(e["to"], []).extend([e["g"], 1])
+        if e["k"] in ("cfg_begin", "cfg_end"):
+            plain_sns.setdefault(e["to"], []).extend([e["sn"], e["g"]])
+    for p in world:
+        if p.get("pre") is not None:
+            plain_sns.setdefault(p["id"], []).append(p["pre"])
     curkeys = {}
+    curdb = {p["id"]: p["db"] for p in world}
     for e in events:
         toks.append(symbolic(world, e, plain_sns, curkeys))
+        if e["k"] in ("db", "cfg_end"):
+            curdb[e["to"]] = e["db"]
         if (e["k"] == "setkey" or (e["k"] == "evt_end" and rolls(e["g"]) and e["req"] != "fail")) \
-                and any(p["id"] == e["to"] and p["db"] == "1" for p in world):
+                and curdb.get(e["to"]) == "1":
             curkeys[e["to"]] = e["key"]
     return " ".join(toks)
 
@@ -284,19 +307,75 @@ def _idstr(p):
 
 def _load_pairings(ctl, world, calls, fallbacks):
     """(re)create every BlePairing from the controller's characteristic cache, as a start of the process does"""
-    pairings = []
-    for p in world:
-        pr = ctl.load_pairing("alias-" + p["name"], {"AccessoryPairingID": _idstr(p), "AccessoryAddress": _idstr(p).upper(),
-                                                      "Connection": "BLE", "iOSDeviceLTPK": LTPK.hex()})
-        pr.dispatcher_connect(lambda ev, pid=p["id"]: calls.append((pid, ev)))
-        orig = pr._process_disconnected_events
+    return [_load_one(ctl, p, calls, fallbacks) for p in world]
 
-        def spy(orig=orig):
-            fallbacks[0] += 1
-            return orig()
-        pr._process_disconnected_events = spy
-        pairings.append(pr)
-    return pairings
+
+def _load_one(ctl, p, calls, fallbacks):
+    pr = ctl.load_pairing("alias-" + p["name"], {"AccessoryPairingID": _idstr(p), "AccessoryAddress": _idstr(p).upper(),
+                                                  "Connection": "BLE", "iOSDeviceLTPK": LTPK.hex()})
+    pr.dispatcher_connect(lambda ev, pid=p["id"]: calls.append((pid, ev)))
+    orig = pr._process_disconnected_events
+
+    def spy(orig=orig):
+        fallbacks[0] += 1
+        return orig()
+    pr._process_disconnected_events = spy
+    return pr
+
+
+def _plain_bytes(id_hex, sn, cn):
+    # type 0x06 | stl | sf | id(6) | acid(2) | gsn(2) | cn | cv | setup hash(4)
+    return (bytes([0x06, 0x31, 0x00]) + bytes.fromhex(id_hex) + (5).to_bytes(2, "little")
+            + (sn & 0xFFFF).to_bytes(2, "little") + bytes([cn & 0xFF, 2]) + b"\x01\x02\x03\x04")
+
+
+async def _impl_db(ev, world, pairings, pending, ctl, calls, fallbacks):
+    """the accessory database of a live pairing is replaced / the pairing is loaded again, through the real methods:
+    db        AbstractPairing.restore_accessories_state (number and key handed in unchanged, as the integration does)
+    cfg_begin a regular advertisement with a higher config number -> the REAL _process_config_changed task ->
+              _populate_accessories_and_characteristics; faked: the connection attempt (suspends until cfg_end), reading the
+              GATT database (returns the new one), the protocol parameters (accessory GSN g) and the value reads
+    reload    the REAL shutdown() + BleController.load_pairing for the same id on the same controller"""
+    import asyncio
+    from unittest.mock import AsyncMock
+    from aiohomekit.controller.ble.structs import ProtocolParams
+    from aiohomekit.model import Accessories
+    idx = next(i for i, p in enumerate(world) if p["id"] == ev["to"])
+    pr = pairings[idx]
+    if ev["k"] == "db":
+        pr.restore_accessories_state(accessories_json(ev["db"]), pr.config_num, pr.broadcast_key, pr.state_num)
+    elif ev["k"] == "reload":
+        await pr.shutdown()
+        pairings[idx] = _load_one(ctl, world[idx], calls, fallbacks)
+    elif ev["k"] == "cfg_begin":
+        release = asyncio.Event()
+
+        async def connect(*a, **kw):
+            await release.wait()
+            return False
+
+        async def fetch():
+            return Accessories.from_list(accessories_json(ev["db"]))
+        cn = pr.config_num + 1
+        pr._ensure_connected = connect
+        pr._async_fetch_gatt_database = fetch
+        pr._encryption_key = object()           # a verified session exists
+        pr._get_all_protocol_params = AsyncMock(return_value=ProtocolParams(
+            state_number=ev["g"], config_number=cn, advertising_id=bytes.fromhex(ev["to"]), broadcast_key=None))
+        pr._get_characteristics_while_connected = AsyncMock(return_value={})
+        ctl._device_detected(_mk_device(addr_of(world[idx]["name"])), _mk_adv({76: _plain_bytes(ev["to"], ev["sn"], cn)}))
+        await _settle()
+        pending["cfg:" + ev["to"]] = (release, None, pr, cn)
+    else:
+        release, _, pr0, cn = pending.pop("cfg:" + ev["to"])
+        release.set()
+        for _ in range(4):
+            await _settle()
+        if pr0.config_num != cn:
+            raise RuntimeError("harness: config re-read did not complete (config_num %s, expected %s)" % (pr0.config_num, cn))
+        pr0._tried_to_connect_once = False
+        pr0._encryption_key = None
+        del pr0._ensure_connected, pr0._async_fetch_gatt_database, pr0._get_all_protocol_params, pr0._get_characteristics_while_connected
 
 
 class _FakeGatt:
@@ -455,6 +534,9 @@ async def _impl_async(world, events):
         if p["cache"]:
             cache.async_create_or_update_map(_idstr(p), 1, accessories_json(p["db"]),
                                              KEYS[p["key"]].hex() if p["key"] else None, p["sn"])
+    for p in world:
+        if p.get("pre") is not None:        # a regular advertisement seen BEFORE load_pairing: the controller holds a discovery
+            ctl._device_detected(_mk_device(addr_of(p["name"])), _mk_adv({76: _plain_bytes(p["id"], p["pre"], 1)}))
     pairings = _load_pairings(ctl, world, calls, fallbacks)
     steps = []
     pending = {}
@@ -474,6 +556,8 @@ async def _impl_async(world, events):
                 await _impl_event(ev, world, pairings, pending)
             elif ev["k"] in ("poll_begin", "poll_end"):
                 await _impl_poll(ev, world, pairings, pending)
+            elif ev["k"] in ("db", "reload", "cfg_begin", "cfg_end"):
+                await _impl_db(ev, world, pairings, pending, ctl, calls, fallbacks)
             else:
                 data, _ = realise(ev)
                 mfr = {} if data is None else {76: data}
@@ -499,6 +583,8 @@ async def _impl_async(world, events):
         if isinstance(item[1], dict):
             item[1]["sn"] = None
         item[0].set()
+    for pr in pairings:
+        pr._shutdown = True
     await _settle()
     for pr in pairings:
         pr._shutdown = True
@@ -567,6 +653,11 @@ def oracle_history(world, events, steps, check_monotone=True):
     sns = [p["sn"] if (p["cache"] and p["sn"]) else None for p in world]
     psns = [p["sn"] if p["cache"] else None for p in world]     # the persisted copy (an accepted broadcast does not write it)
     keys = [p["key"] for p in world]          # the key each accessory currently broadcasts under
+    dbs = [p["db"] for p in world]            # the accessory database each pairing currently holds (oracle's own books)
+    disc = {p["id"] for p in world if p.get("pre") is not None}     # ids the controller holds a discovery for
+    for i, p in enumerate(world):
+        if p.get("pre") is not None:
+            sns[i] = p["pre"]                 # the pairing was handed the discovery's description
     for idx, (ev, st) in enumerate(zip(events, steps)):
         if st.startswith("harness-exc"):
             out.append(("harness-exception", st, idx))
@@ -576,6 +667,10 @@ def oracle_history(world, events, steps, check_monotone=True):
             # the other writers of the number / the key: the oracle keeps its OWN books (it does not adopt what the
             # implementation stores), so that a wrong write shows up as a concrete accepted replay afterwards
             sns = list(sns)
+            if ev["k"] == "restart":
+                disc.clear()
+            elif ev["k"] in ("plain", "cfg_begin"):
+                disc.add(ev["to"])
             for i, p in enumerate(world):
                 if ev["k"] == "restart":
                     sns[i] = psns[i] if psns[i] else None
@@ -589,14 +684,28 @@ def oracle_history(world, events, steps, check_monotone=True):
                     sns[i] = ev["sn"]
                 elif k == "update" and sns[i] is not None:
                     sns[i] = psns[i] = ev["sn"]
-                elif k == "setkey" and p["db"] == "1":       # generation needs the service-signature characteristic
+                elif k == "setkey" and dbs[i] == "1":       # generation needs the service-signature characteristic
                     keys[i] = ev["key"]
+                elif k == "db":                             # database replaced, number and key handed in unchanged
+                    dbs[i] = ev["db"]
+                elif k == "reload":
+                    # loaded again: the last accepted number lives on in the discovery's description (the same object);
+                    # without a discovery the new pairing starts from the persisted copy, like after a restart
+                    if ev["to"] not in disc:
+                        sns[i] = psns[i] if psns[i] else None
+                elif k == "cfg_begin":                      # regular advertisement (higher c#): description replaced at once
+                    sns[i] = psns[i] = ev["sn"] & 0xFFFF
+                elif k == "cfg_end":                        # re-read done: new database, persisted number dropped, GSN read
+                    dbs[i] = ev["db"]
+                    psns[i] = None
+                    if sns[i] is not None:
+                        sns[i] = ev["g"]
                 elif k == "poll_end" and ev["sn"] is not None and sns[i] is not None:
                     sns[i] = psns[i] = ev["sn"]          # a failed poll (sn None) writes nothing
                 elif k == "evt_begin" and sns[i] is not None:
                     sns[i] = psns[i] = ev["g"] if rolls(ev["g"]) else ev["g"] + 1
                 elif k == "evt_end" and rolls(ev["g"]) and ev["req"] != "fail" and sns[i] is not None:
-                    if p["db"] == "1":
+                    if dbs[i] == "1":
                         keys[i] = ev["key"]                 # key first ...
                     sns[i] = psns[i] = 1                    # ... then the number
             if after != sns:
@@ -621,7 +730,7 @@ def oracle_history(world, events, steps, check_monotone=True):
                 n = ev["n"]
                 pt = bytes.fromhex(ev["pt"])
                 iid = int.from_bytes(pt[2:4], "little")
-                fmt = pdb(p).get(iid)
+                fmt = dict(db_chars(dbs[i])).get(iid)       # the database the pairing holds NOW
                 val = R.decode_value(fmt, pt[4:12]) if fmt else None
                 want = ["%s.1.%d.%s" % (p["id"], iid, val)] if val is not None else []
                 if after[i] != n:
@@ -797,12 +906,14 @@ def gen_random(tier, r):
         sent = {"A": [], "B": []}
         pst = dict(st)             # the generator's idea of the persisted copy
         curkey = {"A": "A", "B": "B"}
+        gdb = {"A": "1", "B": "2"}      # the generator's idea of the current database / discoveries
+        gdisc = set()
         evs = []
         for _ in range(r.choice([3, 4, 6, 8, 10, 12])):
             who = "A" if r.random() < 0.75 else "B"
             other = "B" if who == "A" else "A"
             s = st[who]
-            iid, f = r.choice(DBS["1" if who == "A" else "2"])
+            iid, f = r.choice(DBS["1" if gdb[who] in ("1", "1nosig") else "2"] if r.random() < 0.85 else DBS["1"] + DBS["2"])
             val = r.choice(VALUES[:24]) if f != "string" else r.choice(VALUES[24:])
             val = (val + bytes(8))[:8] if r.random() < 0.8 else val
             x = r.random()
@@ -811,12 +922,22 @@ def gen_random(tier, r):
                 if r.random() < 0.12:
                     evs.append(RESTART)
                     st = {k: (pst[k] or st[k]) for k in st}
+                    gdisc.clear()
                     continue
                 if r.random() < 0.2:
                     k2 = r.choice(["R1", "R2", "R3"])
                     evs.append(ev_setkey(who, k2))
-                    if who == "A":                 # B's database has no service-signature characteristic
+                    if gdb[who] == "1":            # needs the service-signature characteristic of the current database
                         curkey[who] = k2
+                    continue
+                if r.random() < 0.2:
+                    gdb[who] = r.choice(["1", "2", "1nosig", "2", "1"])
+                    evs.append(ev_db(who, gdb[who]))
+                    continue
+                if r.random() < 0.2:
+                    evs.append(ev_reload(who))
+                    if IDS[who] not in gdisc:
+                        st[who] = pst[who] or st[who]
                     continue
                 kind = r.choice(["populate", "populate", "update", "plain"])
                 n2 = max(1, s + r.choice([0, 1, 2, 3, 6, 50, 99, 120, -1, -3])) & 0xFFFF or 1
@@ -824,6 +945,8 @@ def gen_random(tier, r):
                 st[who] = n2
                 if kind != "populate":
                     pst[who] = n2
+                if kind == "plain":
+                    gdisc.add(IDS[who])
                 continue
             if x < 0.35:
                 n = s + 1
@@ -1041,6 +1164,107 @@ def gen_polls(tier):
     return hs
 
 
+def ev_db(to, db):
+    return dict(k="db", to=IDS[to], db=db, label="database-replaced:" + db)
+
+
+def ev_reload(to):
+    return dict(k="reload", to=IDS[to], label="pairing-loaded-again")
+
+
+def ev_cfg(to, sn, db, g):
+    """(begin, end) of a config-number change: regular advertisement (c#+1, state number sn) -> re-read of the database
+    (suspended in its connection attempt until end) -> database db, accessory GSN g"""
+    return (dict(k="cfg_begin", to=IDS[to], sn=sn, db=db, g=g, label="config-changed-begin"),
+            dict(k="cfg_end", to=IDS[to], sn=sn, db=db, g=g, label="config-changed-end:" + db))
+
+
+def world_pre(sa, sb, pre_a=None, pre_b=None):
+    w = mk_world(sa, sb)
+    if pre_a is not None:
+        w[0]["pre"] = pre_a
+    if pre_b is not None:
+        w[1]["pre"] = pre_b
+    return w
+
+
+def gen_db(tier):
+    """the accessory database is replaced between notifications (restore_accessories_state; config-number change re-read as a
+    suspendable operation): an accepted notification must be decoded with the format its iid has in the database the
+    pairing holds NOW (db 1 -> 2: iid 9 bool->uint64, 10 uint8->string, 11 uint16->uint8, 12.. gone, 300/65535 new)"""
+    hs = []
+    for s in ([20, 65400] if tier == "quick" else [1, 20, 255, 4095, 65400]):
+        w = mk_world(s, 300)
+
+        def g(n, iid=11, lab="genuine", who="A", key=None):
+            return genuine(who, n, iid, label=lab, **({"key": key} if key else {}))
+        hs.append((w, [g(s + 1, 11), g(s + 2, 12), g(s + 3, 300, "unknown-iid"), ev_db("A", "2"), g(s + 4, 11), g(s + 5, 12, "unknown-iid"),
+                       g(s + 6, 300), g(s + 4, 11, "replay-older"), g(s + 7, 10), RESTART, g(s + 7, 10, "after-restart"), g(s + 8, 9)],
+                   "db:restore"))
+        for x in ("2", "1nosig", "noaid1"):
+            hs.append((w, [g(s + 1, 11), g(s + 2, 9), ev_db("A", x), g(s + 3, 11), g(s + 4, 9), g(s + 4, 9, "replay-current"),
+                           ev_db("A", "1"), g(s + 5, 11), g(s + 6, 9)], "db:restore-and-back"))
+            hs.append((w, [ev_db("A", x), g(s + 1, 11), g(s + 2, 10), g(s + 3, 16)], "db:restore-first"))
+        # the other pairing's database: B gets db 1, A is untouched
+        hs.append((w, [g(s + 1, 11), genuine("B", 301, 11), ev_db("B", "1"), genuine("B", 302, 11), genuine("B", 303, 12), g(s + 2, 11),
+                       ev_db("B", "2"), genuine("B", 304, 11), genuine("B", 305, 300)], "db:other-pairing"))
+        # key generation needs the signature characteristic of the CURRENT database
+        hs.append((w, [ev_db("A", "1nosig"), ev_setkey("A", "R1"), g(s + 1, 11, "wrong-key", key="R1"), g(s + 1, 11), ev_db("A", "1"),
+                       ev_setkey("A", "R1"), g(s + 2, 11, "old-epoch-key"), g(s + 2, 11, key="R1")], "db:setkey-after-replace"))
+        hs.append((w, [ev_db("B", "1"), ev_setkey("B", "R2"), genuine("B", 301, 11, label="old-epoch-key"), genuine("B", 301, 11, key="R2"),
+                       RESTART, genuine("B", 302, 12, key="R2", label="after-restart")], "db:setkey-after-replace"))
+        # config-number change: notifications delivered while the re-read hangs see the OLD database
+        for gsn, x in ((s + 3, "2"), (s + 10, "1nosig")):
+            b, e = ev_cfg("A", s + 1, x, gsn)
+            hs.append((w, [g(s + 1, 11), b, g(s + 2, 11), g(s + 3, 12), e, g(s + 3, 12, "replay-current"), g(s + 2, 11, "replay-older"),
+                           g(gsn + 1, 11), g(gsn + 2, 12), g(gsn + 3, 300), g(gsn + 3, 300, "replay-current"), g(gsn + 4, 10)],
+                       "db:config-change"))
+        b, e = ev_cfg("A", s, "2", s)
+        hs.append((w, [b, e, g(s + 1, 11), RESTART, g(s + 2, 11, "after-restart-no-description"),
+                       dict(k="plain", to=IDS["A"], sn=s + 1, label="plain-adv-forward"), g(s + 2, 11)], "db:config-change-restart"))
+        b, e = ev_cfg("A", s + 1, "2", s + 1)
+        b2, e2 = ev_cfg("A", s + 2, "1", s + 3)
+        hs.append((w, [g(s + 1, 10), b, e, g(s + 1, 10, "replay-current"), g(s + 2, 10), b2, g(s + 3, 10), e2, g(s + 3, 10, "replay-current"),
+                       g(s + 4, 10), g(s + 5, 11)], "db:config-change-twice"))
+    return hs
+
+
+def gen_reload(tier):
+    """load_pairing again for the same id on the SAME controller (integration reload).  With a discovery in the controller the
+    last accepted number survives (bcast_reload_with_discovery); without one it is a restart of that pairing."""
+    hs = []
+    for s in ([20, 65400] if tier == "quick" else [1, 20, 255, 4095, 65400]):
+        def g(n, iid=11, lab="genuine", who="A", key=None):
+            return genuine(who, n, iid, label=lab, **({"key": key} if key else {}))
+        pl = dict(k="plain", to=IDS["A"], sn=s, label="plain-adv-same")
+        rl = ev_reload("A")
+        w = mk_world(s, 300)
+        hs.append((w, [pl, g(s + 1), g(s + 2), g(s + 5), rl, g(s + 1, lab="replay-older"), g(s + 2, lab="replay-older"),
+                       g(s + 5, lab="replay-current"), g(s + 6), rl, g(s + 6, lab="replay-current"), g(s + 7)], "reload:after-plain"))
+        hs.append((w, [pl, rl, g(s + 1), g(s + 2), rl, g(s + 1, lab="replay-older"), g(s + 2, lab="replay-current"), g(s + 3), rl, rl,
+                       g(s + 3, lab="replay-current")], "reload:twice"))
+        # the regular advertisement was seen BEFORE the pairing was loaded the first time
+        for pre in (s, s + 3):
+            wp = world_pre(s, 300, pre_a=pre)
+            hs.append((wp, [g(pre + 1), g(pre + 2), g(pre + 5), rl, g(pre + 1, lab="replay-older"), g(pre + 5, lab="replay-current"),
+                            g(pre + 6), RESTART, g(pre + 6, lab="after-restart")], "reload:discovery-before-load"))
+            hs.append((wp, [g(pre + 1, 999, "unknown-iid"), rl, g(pre + 1, 999, "replay-current"), g(pre + 2)],
+                       "reload:discovery-before-load"))
+        hs.append((world_pre(s, 300, pre_a=s, pre_b=300), [g(s + 1), genuine("B", 301), ev_reload("B"), g(s + 1, lab="replay-current"),
+                                                           genuine("B", 301, label="replay-current"), genuine("B", 302), g(s + 2)],
+                   "reload:other-pairing"))
+        # no discovery: like a restart of that pairing (persisted copy)
+        hs.append((w, [g(s + 1), rl, g(s + 1, lab="after-restart"), g(s + 1, lab="replay-current"), ev_op("update", "A", s + 4), rl,
+                       g(s + 3, lab="older-than-learned"), g(s + 5)], "reload:no-discovery"))
+        # number learned over a connection (description only) + reload; key regenerated + reload; database replaced + reload
+        hs.append((w, [pl, ev_op("populate", "A", s + 6), rl, g(s + 3, lab="older-than-learned"), g(s + 7)], "reload:after-populate"))
+        hs.append((w, [pl, ev_setkey("A", "R1"), g(s + 1, key="R1"), rl, g(s + 2, lab="old-epoch-key"), g(s + 1, key="R1", lab="replay-current"),
+                       g(s + 2, key="R1")], "reload:after-setkey"))
+        hs.append((w, [pl, g(s + 1, 11), ev_db("A", "2"), rl, g(s + 1, 11, "replay-current"), g(s + 2, 11), g(s + 3, 12, "unknown-iid")],
+                   "reload:after-db"))
+    return hs
+
+
 def gen_rollover_obs():
     """observation: a roll-over of the number WITHOUT a new key re-admits the previous epoch"""
     g = genuine("A", 2)
@@ -1116,9 +1340,10 @@ _XC_OUT = {"notapple": 0, "othertype": 1, "nopairing": 2, "nokey": 3, "nodesc": 
 _XC_FMT = {"bool": "FBool", "u8": "FU8", "u16": "FU16", "u32": "FU32", "u64": "FU64", "int": "FInt",
            "float": "FFloat", "string": "FString", "other": "FOther"}
 _XC_PRELUDE = """From Coq Require Import List NArith ZArith.
-From AHK Require Import Lib.ByteStr Model.Bcast.
+From AHK Require Import Lib.ByteStr Model.Bcast Model.BcastDb.
 Import ListNotations.
 Open Scope Z_scope.
+Definition xo (l : list op) : list xop := map XOp l.
 Definition zb (l : bytes) : list Z := Z.of_nat (length l) :: map Z.of_N l.
 Definition show_v (v : value) : list Z :=
   match v with
@@ -1144,16 +1369,16 @@ Definition show_keys (c : ctrl) : list Z :=
   Z.of_nat (length c) :: flat_map (fun p => match p_key p with None => [0; 0] | Some n => [1; Z.of_N n] end) c.
 Definition show_step (o : Z) (fb : bool) (cl : list call) (c : ctrl) : list Z :=
   o :: Z.of_nat (length cl) :: flat_map show_call cl ++ show_sns c ++ show_psns c ++ [if fb then 1 else 0] ++ show_keys c.
-Fixpoint run_ops (c : ctrl) (l : list op) (last : Z * bool * list call) : ctrl * (Z * bool * list call) :=
+Fixpoint run_ops (c : xstate) (l : list xop) (last : Z * bool * list call) : xstate * (Z * bool * list call) :=
   match l with
   | [] => (c, last)
-  | x :: r => let '(c', o, cl) := apply c x in
-              run_ops c' r (match x with OAdv _ => (show_o o, falls_back o, cl) | _ => (99, false, []) end)
+  | x :: r => let '(c', o, cl) := xapply c x in
+              run_ops c' r (match x with XOp (OAdv _) => (show_o o, falls_back o, cl) | _ => (99, false, []) end)
   end.
-Fixpoint show_hist (c : ctrl) (h : list (list op)) : list Z :=
+Fixpoint show_hist (c : xstate) (h : list (list xop)) : list Z :=
   match h with
   | [] => []
-  | l :: r => let '(c', (o, fb, cl)) := run_ops c l (99, false, []) in show_step o fb cl c' ++ show_hist c' r
+  | l :: r => let '(c', (o, fb, cl)) := run_ops c l (99, false, []) in show_step o fb cl (x_c c') ++ show_hist c' r
   end.
 Definition show_val (r : crashkind + value) : list Z :=
   match r with inl k => [0; show_ck k] | inr v => 1 :: show_v v end.
@@ -1173,10 +1398,25 @@ def _xc_term(line):
     toks = line.split(" ")
     if toks[0] == "val":
         return "show_val (from_bytes %s %s)" % (_XC_FMT[toks[1]], _xc_bytes(toks[2]))
-    ps, evs = [], []
+    ps, evs, inits = [], [], []
+
+    def xchars(c):
+        return "[]" if c == "-" else "[" + "; ".join(
+            "(%d%%N, %s)" % (int(x.split(".")[0]), _XC_FMT[x.split(".")[1]]) for x in c.split(",")) + "]"
     for t in toks[1:]:
         f = t.split(":")
-        if f[0] == "P":
+        if f[0] == "I":
+            inits.append(_xc_bytes(f[1]))
+        elif f[0] == "DB":
+            evs.append("[XDb %s %s %s %s]" % (_xc_bytes(f[1]), xchars(f[2]), "true" if f[3] == "1" else "false",
+                                              "true" if f[4] == "1" else "false"))
+        elif f[0] == "RL":
+            evs.append("[XReload %s]" % _xc_bytes(f[1]))
+        elif f[0] == "CB":
+            evs.append("cfg_begin %s %d%%N" % (_xc_bytes(f[1]), int(f[2])))
+        elif f[0] == "CE":
+            evs.append("cfg_end %s %s %s %d%%N" % (_xc_bytes(f[1]), xchars(f[2]), "true" if f[3] == "1" else "false", int(f[4])))
+        elif f[0] == "P":
             chars = "[]" if f[5] == "-" else "[" + "; ".join(
                 "(%d%%N, %s)" % (int(c.split(".")[0]), _XC_FMT[c.split(".")[1]]) for c in f[5].split(",")) + "]"
             ps.append("mkP %s %s %s %s %s %s" % (_xc_bytes(f[1]), _xc_optn(f[2]), _xc_optn(f[3]), _xc_optn(f[4]), chars,
@@ -1191,23 +1431,23 @@ def _xc_term(line):
                 body = "PShort [%s]" % ("" if b[1] == "-" else "; ".join("%d%%N" % int(x) for x in b[1].split(",")))
             else:
                 body = "PEmpty"
-            evs.append("[OAdv (%s, %s)]" % (_xc_bytes(f[1]), body))
+            evs.append("xo [OAdv (%s, %s)]" % (_xc_bytes(f[1]), body))
         elif f[0] == "X":
-            evs.append("[ORestart]")
+            evs.append("xo [ORestart]")
         elif f[0] == "K":
-            evs.append("[OSetKey %s %d%%N]" % (_xc_bytes(f[1]), int(f[2])))
+            evs.append("xo [OSetKey %s %d%%N]" % (_xc_bytes(f[1]), int(f[2])))
         elif f[0] == "LB":
-            evs.append("poll_begin %s" % _xc_bytes(f[1]))
+            evs.append("xo (poll_begin %s)" % _xc_bytes(f[1]))
         elif f[0] == "LE":
-            evs.append("poll_end %s %s" % (_xc_bytes(f[1]), "PollFail" if f[2] == "fail" else "(PollOk %d%%N)" % int(f[2])))
+            evs.append("xo (poll_end %s %s)" % (_xc_bytes(f[1]), "PollFail" if f[2] == "fail" else "(PollOk %d%%N)" % int(f[2])))
         elif f[0] == "EB":
-            evs.append("event_begin %s %d%%N" % (_xc_bytes(f[1]), int(f[2])))
+            evs.append("xo (event_begin %s %d%%N)" % (_xc_bytes(f[1]), int(f[2])))
         elif f[0] == "EE":
-            evs.append("event_end %s %d%%N %s" % (_xc_bytes(f[1]), int(f[2]),
-                                                 "ReqFail" if f[3] == "fail" else "(ReqOk %d%%N)" % int(f[3])))
+            evs.append("xo (event_end %s %d%%N %s)" % (_xc_bytes(f[1]), int(f[2]),
+                                                      "ReqFail" if f[3] == "fail" else "(ReqOk %d%%N)" % int(f[3])))
         else:
-            evs.append("[%s %s %d%%N]" % ({"R": "OPlain", "O": "OPopulate", "U": "OUpdate"}[f[0]], _xc_bytes(f[1]), int(f[2])))
-    return "show_hist [%s] [%s]" % ("; ".join(ps), "; ".join(evs))
+            evs.append("xo [%s %s %d%%N]" % ({"R": "OPlain", "O": "OPopulate", "U": "OUpdate"}[f[0]], _xc_bytes(f[1]), int(f[2])))
+    return "show_hist (mkX [%s] [%s]) [%s]" % ("; ".join(ps), "; ".join(inits), "; ".join(evs))
 
 
 def _xc_val(v):
@@ -1246,7 +1486,7 @@ def _xc_expect(line, ans):
     return out
 
 
-def xc_sample(hist_pairs, val_pairs, nhist=18, nval=10):
+def xc_sample(hist_pairs, val_pairs, nhist=24, nval=10):
     """deterministic sample of (request line, driver answer): first the histories that add a model outcome / payload
     kind / event kind not yet covered, then an even spread over the streams; values spread over formats and results"""
     ok = lambda a: not (a.startswith("driver-exception") or a == "bad-request")  # noqa: E731
@@ -1255,8 +1495,8 @@ def xc_sample(hist_pairs, val_pairs, nhist=18, nval=10):
     for i, l, a in hp:
         feats = {"o:" + t.split("/")[0] for t in a.split(" ") if "/" in t}
         feats |= {"b:" + t.split(":")[2][0] for t in l.split(" ") if t.startswith("A:")}
-        feats |= {"e:" + t.split(":")[0] for t in l.split(" ") if t[0] in "ROUXKEL"}
-        if feats - seen and len(picked) < nhist - 6:
+        feats |= {"e:" + t.split(":")[0] for t in l.split(" ") if t[0] in "ROUXKELDCI"}
+        if feats - seen and len(picked) < nhist - 4:
             seen |= feats
             picked.append(i)
     by_stream = {}
@@ -1320,7 +1560,8 @@ def run(ctx):
         hs = [(rp["world"], rp["events"], "replay")]
     else:
         hs = gen_core(tier) + gen_values(tier) + gen_flips(tier, rng(seed, "c18flip")) + gen_short(tier, rng(seed, "c18short")) \
-            + gen_random(tier, rng(seed, "c18rand")) + gen_ops(tier) + gen_keys(tier) + gen_events(tier) + gen_polls(tier)
+            + gen_random(tier, rng(seed, "c18rand")) + gen_ops(tier) + gen_keys(tier) + gen_events(tier) + gen_polls(tier) \
+            + gen_db(tier) + gen_reload(tier)
     plain = [] if ctx.get("replay") else gen_plain() + gen_rollover_obs()
     allh = hs + plain
     lines, model, impl = run_histories(drv, allh)
